@@ -162,6 +162,30 @@ def gen_iupac_case(rng):
     return c
 
 
+def gen_lowcomplexity_case(rng):
+    """Low-complexity sequences (homopolymer / microsatellite runs of 250..330 units): one 4-mer occurs hundreds of times, so the
+    4-mer tables hold large counts (a counter narrower than the data wraps around and the prefilter then prunes a closest reference)."""
+    motif = rng.choice(["a", "c", "g", "t", "ac", "ag", "ct", "acg"])
+    n = rng.randrange(250, 330)
+    fl, fr = rseq(rng, rng.randrange(4, 12)), rseq(rng, rng.randrange(4, 12))
+    core = (motif * n)[:n] if len(motif) > 1 and rng.random() < 0.5 else motif * n
+    q = fl + core + fr
+    def var(k):
+        if k == "ins":
+            return fl + core + motif[0] + fr
+        if k == "del":
+            return fl + core[1:] + fr
+        if k == "sub2":
+            return mutate(rng, fl, 1) + core + mutate(rng, fr, 1)
+        if k == "sub1":
+            return fl + core + mutate(rng, fr, 1)
+        return rseq(rng, 12) + core[: len(core) // 2] + rseq(rng, 12)
+    kinds = rng.sample(["ins", "del", "sub2", "sub1", "far"], rng.randrange(3, 6))
+    refs = [var(k) for k in kinds]
+    taxo = [[1, 1], [2, 1], [3, 2], [4, 2], [5, 1]]
+    return dict(q=q, refs=refs, taxids=[rng.randrange(1, 6) for _ in refs], taxo=taxo, index=True, tag="lowcomplexity")
+
+
 # minimised defect witnesses (always run first)
 CORPUS = [
     # FindClosests (fixed): ref 1 (one insertion, 9 bases, 5 shared 4-mers) is found first at distance 1; with the original
@@ -175,6 +199,9 @@ CORPUS = [
     dict(q="cgtccta", refs=["tccta", "cgtcc", "cgtcc", "cgtacctccta", "cgtcctataaa", "cgtcct"], taxids=[1, 4, 2, 4, 2, 1],
          taxo=[[1, 1], [2, 1], [3, 1], [4, 3]], index=True, tag="corpus:fixed-indexsequence"),
     # boundary cases: single reference; query identical to a reference; duplicates of different taxa; 4-base sequences
+    # 4-mer counters: query with 258 a, a reference with 259 a (distance 1, 'aaaa' x 256) and one with two substitutions (distance 2)
+    dict(q="cgtcatg" + "a" * 258 + "gtcagct", refs=["cgtcatg" + "a" * 259 + "gtcagct", "cgtgatg" + "a" * 258 + "gtcacct"], taxids=[2, 3],
+         taxo=[[1, 1], [2, 1], [3, 1]], index=True, tag="corpus:boundary-4mer-count-256"),
     dict(q="acgt", refs=["acgt"], taxids=[1], taxo=[[1, 1]], index=True, tag="corpus:boundary"),
     dict(q="acgtacgtac", refs=["acgtacgtac", "acgtacgtac", "acgtacgtaa"], taxids=[3, 4, 2], taxo=[[1, 1], [2, 1], [3, 2], [4, 2]], index=True, tag="corpus:boundary"),
     dict(q="aaaaaaaa", refs=["aaaaaaa", "aaaaaaaaa", "aaaa", "cccccccc"], taxids=[2, 3, 1, 3], taxo=[[1, 1], [2, 1], [3, 2]], index=True, tag="corpus:boundary"),
@@ -411,6 +438,7 @@ def run(ctx, broken):
     cases += [gen_case(rng, index=True) for _ in range(n_idx)]
     cases += [gen_case(rng, index=(k % 4 == 0), big=True) for k in range(n_big)]
     cases += [gen_iupac_case(rng) for _ in range(n_amb)]
+    cases += [gen_lowcomplexity_case(rng) for _ in range(4 if ctx.quick else 80)]
     obs, mism, stats = evaluate(ctx, cases, broken, "main")
     ctx.cov["evaluations"] = len(cases)
     ctx.cov["distinct_nontrivial"] = len({json.dumps(strip(c), sort_keys=True) for c, o in zip(cases, obs) if nontrivial(c, o)})
